@@ -267,6 +267,9 @@ func frames() {
 	if nReply > calls {
 		vrt.Failf("non-call-answered/"+odd, "frames %s to action %d produced %d success replies for %d calls", label, tg.action, nReply, calls)
 	}
+	if first == net.Post && nReply+nErr > 0 {
+		vrt.Failf("post-answered/"+fmt.Sprint(tg.action), "a Post frame to action %d produced %d replies and %d errors carrying its id", tg.action, nReply, nErr)
+	}
 	if calls == 1 && second == 0 && nReply+nErr != 1 {
 		vrt.Failf("call-answer-count", "a single call to action %d got %d replies and %d errors", tg.action, nReply, nErr)
 	}
